@@ -286,3 +286,16 @@ package resolve
 //@   assert at "flattened = append(flattened, RequirementVersion{": imp(ok && strlastindex(r, "@") >= 0, name == r[:strlastindex(r, "@")] && req == r[strlastindex(r, "@")+1:])
 //@   assert at "flattened = append(flattened, RequirementVersion{": imp(!ok, name == d.Name && req == d.Requirement)
 //@   property C18
+
+// C18 (partial): what npmRequirements records for a bundled package. The
+// version it invents has the mangled name, the bundled version string and is
+// concrete; the bundle remembers the package it derives from; its bundling
+// parent gets a requirement on exactly that package and version string; the
+// version stored in bundledVersions has the bundle's key.
+//@ func (*APIClient).npmRequirements
+//@   assert at "parentName := root.Name": allDeps[mangled].vk == bundleVK && allDeps[mangled].originalName == b.Name
+//@   assert at "parentName := root.Name": bundleVK.PackageKey.System == NPM && bundleVK.PackageKey.Name == mangled && bundleVK.VersionType == Concrete && bundleVK.Version == b.Version
+//@   assert at "allDeps[parentName] = parentBundle": len(parentBundle.deps) >= 1 && parentBundle.deps[len(parentBundle.deps)-1].VersionKey.PackageKey == bundleVK.PackageKey && parentBundle.deps[len(parentBundle.deps)-1].VersionKey.Version == bundleVK.Version && parentBundle.deps[len(parentBundle.deps)-1].VersionKey.VersionType == Requirement
+//@   assert at "a.bundledVersions[name] = bundledVersion{": v.VersionKey == bundle.vk
+//@   assert at "a.bundledVersions[name] = bundledVersion{": fst(v.GetAttr(version.DerivedFrom)) == bundle.originalName && snd(v.GetAttr(version.DerivedFrom))
+//@   property C18
